@@ -419,6 +419,33 @@ func genDecoders(c *Ctx) {
 			c.Emit("dec/match", WList(WStr("match"), WInt(int64(pi)), WNode(d)), WStr(cls))
 		}
 	}
+	// like patterns as they arrive from outside (policy.FromIPLD, not the constructor): every pattern over
+	// {a, *, \, b} up to length 5 (odd and even runs of backslashes at the end included) against every string
+	// over {a, \, *} up to length 4; one case per pattern, the worst outcome over the strings
+	{
+		var pats, strs []string
+		allStrings("a*\\b", 5, func(x string) { pats = append(pats, x) })
+		allStrings("a\\*", 4, func(x string) { strs = append(strs, x) })
+		for _, extra := range []string{"dir\\\\\\", "*\\\\\\", "a\\\\\\\\\\", "\\\\\\\\\\\\\\"} {
+			pats = append(pats, extra)
+		}
+		strs = append(strs, "dir\\file", "dir\\", "a\\\\x")
+		for _, pat := range pats {
+			nd := mkList(mkList(basicnode.NewString("like"), basicnode.NewString(".a"), basicnode.NewString(pat)))
+			var pol policy.Policy
+			cls := classify(func() error { var err error; pol, err = policy.FromIPLD(nd); return err })
+			if cls == "ok" {
+				for _, sv := range strs {
+					d := mkMap(ent{"a", basicnode.NewString(sv)})
+					if k := classify(func() error { pol.Match(d); pol.PartialMatch(d); return nil }); k != "ok" {
+						cls = k
+						break
+					}
+				}
+			}
+			c.Emit("dec/like-match", WList(WStr("likematch"), WStr(pat)), WStr(cls))
+		}
+	}
 	// policy.FromIPLD on nodes (uint64 beyond int64, deep nesting, wrong kinds)
 	for _, nd := range []datamodel.Node{
 		mkList(mkList(basicnode.NewString("=="), basicnode.NewString(".a"), big)),
